@@ -733,7 +733,7 @@ func oneLetterOK() bool {
 	return err == nil && b.RegErr == nil && b.RegPanic == nil
 }
 
-const ruleC01 = "generated rule sets (2-8 methods, 1-3 services, annotation/additional/service-config rules, literals from a colliding 7-word alphabet, *, ** (last), {f}, {f=lit/*}, {f=*/lit/*}, {f=lit/**}, nested field paths, typed variables, :verb, verbs GET/PUT/POST/DELETE/PATCH/custom/*) registered on a real Mux; requests = instantiations of every template, near-misses (segment dropped/added/substituted, verb suffix changed/removed/doubled, ':' inserted, slashes), wrong HTTP verb, invalid typed text, random paths. Every dispatch is checked against an independent permissive template matcher + protojson text conversion. Typed variables cover every numeric kind incl. 32-bit floats (extremes, magnitudes between the float32 and float64 ranges, double-rounding midpoints) and the fixed / zig-zag integer kinds. Rule sets with several services are also registered service by service with the whole request list served between two registrations, and the same oracle is applied to those muxes. distinct = (template shape, request class) of dispatches that captured at least one variable"
+const ruleC01 = "generated rule sets (2-8 methods, 1-3 services, annotation/additional/service-config rules, literals from a colliding 7-word alphabet, *, ** (last), {f}, {f=lit/*}, {f=*/lit/*}, {f=lit/**}, nested field paths, typed variables, :verb, verbs GET/PUT/POST/DELETE/PATCH/custom/*) registered on a real Mux; requests = instantiations of every template, near-misses (segment dropped/added/substituted, verb suffix changed/removed/doubled, ':' inserted, slashes), wrong HTTP verb, invalid typed text, random paths. Every dispatch is checked against an independent permissive template matcher + protojson text conversion. Typed variables cover every numeric kind incl. 32-bit floats (extremes, magnitudes between the float32 and float64 ranges, double-rounding midpoints) and the fixed / zig-zag integer kinds. Rule sets with several services are also registered service by service with the whole request list served between two registrations, and the same oracle is applied to those muxes. Field-order skew lane: the file given to FilesOption and the file the service's message type comes from declare the fields of the request message (14 fields, several of every kind, two nested messages) in different orders; every capture must be in the field the template names. distinct = (template shape, request class) of dispatches that captured at least one variable"
 
 const ruleC02 = "same rule-set generator; each set registered in several orders (service order, method order, additional-binding order, config-rule order); requests = instantiations of every template (values over every documented path character class, single characters, unicode letters, words colliding with literals, multi-segment ** captures with verb). Oracles: strict reference matcher => must dispatch to an owner; literal-over-wildcard edge comparison; equal outcome across orders; rule sets with several services are also registered service by service (in two service orders) with the whole request list served between two registrations, and completeness / precedence are checked on those muxes too. distinct = shape of the most specific matching template (+competing flag) among requests with a wildcard/variable"
 
@@ -742,6 +742,7 @@ func RunC01(r *mon.Run) {
 	r.Rule = ruleC01
 	r.Floor = 30
 	explore(r, "C01")
+	orderSkew(r)
 	r.Assume("requests carry no body and no query; expected values of typed captures come from protojson (textref)")
 }
 
@@ -755,6 +756,13 @@ func RunC02(r *mon.Run) {
 
 // Replay re-executes a stored routing case.
 func Replay(r *mon.Run, raw json.RawMessage) {
+	var sk SkewCase
+	if err := json.Unmarshal(raw, &sk); err == nil && sk.Lane == "field-order-skew" {
+		r.Distinct("replay-a")
+		r.Distinct("replay-b")
+		runSkewCase(r, &sk, rand.New(rand.NewSource(1)))
+		return
+	}
 	var c Case
 	if err := json.Unmarshal(raw, &c); err != nil || c.RS == nil {
 		r.Inconclusive("bad replay case")
